@@ -89,6 +89,7 @@ def case_strategy(draw, target):
             exp_range=(-2.0, 3.0),
             max_nbasis=45,
             balanced=True,
+            center_orders=True,
         )
     )
     if target in ("molden", "molekel") and draw(st.sampled_from([True] * 9 + [False])):
